@@ -127,3 +127,74 @@ def derive(track, key, allow=None):
     except Exception:
         pass
     return d, how
+
+
+# less usual feature names ----------------------------------------------------
+class NameProxy:
+    """Forwards to a Track, spelling the logical feature names (keys of nm) as the case's real names in every argument (names,
+    (name, i) keys, expression texts) and spelling listed names back."""
+
+    def __init__(self, tr, nm):
+        import re
+        object.__setattr__(self, "_tr", tr)
+        object.__setattr__(self, "_nm", dict(nm))
+        object.__setattr__(self, "_inv", {v: k for k, v in nm.items()})
+        object.__setattr__(self, "_re", re.compile(r"\b(" + "|".join(sorted(map(re.escape, nm), key=len, reverse=True)) + r")\b"))
+
+    def _n(self, x):
+        if isinstance(x, str):
+            if x in self._nm:
+                return self._nm[x]
+            return self._re.sub(lambda m: self._nm[m.group(1)], x)
+        return x
+
+    def _key(self, key):
+        if isinstance(key, tuple):
+            return tuple(self._n(k) for k in key)
+        return self._n(key)
+
+    def __getattr__(self, name):
+        return getattr(self._tr, name)
+
+    def createAnalyticalFeature(self, name, *a):
+        return self._tr.createAnalyticalFeature(self._n(name), *a)
+
+    def removeAnalyticalFeature(self, name):
+        return self._tr.removeAnalyticalFeature(self._n(name))
+
+    def updateAnalyticalFeature(self, name, *a):
+        return self._tr.updateAnalyticalFeature(self._n(name), *a)
+
+    def addAnalyticalFeature(self, f, name=None):
+        return self._tr.addAnalyticalFeature(f, self._n(name))
+
+    def getAnalyticalFeature(self, name):
+        return self._tr.getAnalyticalFeature(self._n(name))
+
+    def getListAnalyticalFeatures(self):
+        return [self._inv.get(x, x) for x in self._tr.getListAnalyticalFeatures()]
+
+    def operate(self, op, *a):
+        if isinstance(op, str):
+            return self._tr.operate(self._n(op), *a)
+        return self._tr.operate(op, *[self._n(x) for x in a])
+
+    def __getitem__(self, key):
+        return self._tr[self._key(key)]
+
+    def __setitem__(self, key, v):
+        self._tr[self._key(key)] = v
+
+    def extractSpanTime(self, *a):
+        r = self._tr.extractSpanTime(*a)
+        return NameProxy(r, self._nm) if r is not None else r
+
+    def size(self):
+        return self._tr.size()
+
+    def real_env(self, env):
+        """The same name -> values mapping keyed by the real names."""
+        return {self._nm.get(k, k): v for k, v in env.items()}
+
+    def getObsList(self):
+        return self._tr.getObsList()
